@@ -87,7 +87,22 @@ def check_names(res, out):
 
 def run(ctx):
     res = core.Result()
-    outs = {h: run_host(h, ctx.seed) for h in HOSTS}
+    for k in range(ctx.pick(1, 12)):
+        run_one(res, ctx, ctx.seed * 1000 + k)
+        res.count('workload_seeds')
+    res.counters['hosts'] = len(HOSTS)
+    res.assumptions += ['other platforms are modelled by substituting the interpreter\'s errno/signal/socket tables, '
+                        'os.strerror, sys.platform, TZ and locale before the repository is imported',
+                        'Darwin names = vlib/darwin_ref.py (aliases such as EWOULDBLOCK/EAGAIN accepted)']
+    res.require('cross_host_comparisons', 500)
+    res.require('error_names_checked', 100)
+    res.require('signal_names_checked', 31)
+    res.require('socket_names_checked', 100)
+    return res
+
+
+def run_one(res, ctx, seed):
+    outs = {h: run_host(h, seed) for h in HOSTS}
     base = outs['real']
     for section, val in base.items():
         items = val.items() if isinstance(val, dict) else enumerate(val) if isinstance(val, list) else [(0, val)]
@@ -116,15 +131,6 @@ def run(ctx):
     res.sample({'socket(30,1)': base['socket']['30,1'], 'signal 10': base['signals']['10'],
                 'setsockopt SOL_SOCKET': base['setsockopt'][f'{D.SOL_SOCKET},4']})
     res.sample({'formatted_traces_first': base['formatted_traces'][:2], 'formatted_logs_first': base['formatted_logs'][:1]})
-    res.counters['hosts'] = len(HOSTS)
-    res.assumptions += ['other platforms are modelled by substituting the interpreter\'s errno/signal/socket tables, '
-                        'os.strerror, sys.platform, TZ and locale before the repository is imported',
-                        'Darwin names = vlib/darwin_ref.py (aliases such as EWOULDBLOCK/EAGAIN accepted)']
-    res.require('cross_host_comparisons', 500)
-    res.require('error_names_checked', 100)
-    res.require('signal_names_checked', 31)
-    res.require('socket_names_checked', 100)
-    return res
 
 
 def replay(case, ctx):
